@@ -520,7 +520,7 @@ func c01Sequence(cs *drv.Case, vals []cval, sched int, withData bool) {
 	sink := &doubles.Sink{}
 	dw := bufiox.NewDefaultWriter(sink)
 	bw := thrift.NewBufferWriter(dw)
-	var target []byte
+	var target, acc []byte
 	yw := bufiox.NewBytesWriter(&target)
 	bw2 := thrift.NewBufferWriter(yw)
 	for i, v := range vals {
@@ -535,12 +535,19 @@ func c01Sequence(cs *drv.Case, vals []cval, sched int, withData bool) {
 		if cs.R.Intn(7) == 0 {
 			dw.Flush()
 		}
+		if cs.R.Intn(9) == 0 {
+			// a bytes writer reused across flushes publishes what was written since the previous Flush
+			yw.Flush()
+			acc = append(acc, target...)
+			target = nil
+		}
 	}
 	if err := dw.Flush(); err != nil {
 		cs.Fail("stream-writer-error", M{"op": "flush"}, nil)
 		return
 	}
 	yw.Flush()
+	target = append(acc, target...)
 	bw.Recycle()
 	bw2.Recycle()
 	if got := sink.All(); !bytes.Equal(got, stream) {
